@@ -56,6 +56,12 @@ func runC14(p *core.Program, r *core.Report) {
 	c14R9(p, r)
 	c14R10(p, r, fs)
 	c14R11(p, r, fs)
+	// A5: "no panic": every index and slice expression of the resolver is in bounds
+	c14R12(p, r, fs)
+	r.Floor("A5", 10)
+	for _, f := range fs {
+		a5Check(r, "A5", f, resultIndexTactic(p))
+	}
 }
 
 func c14R1(p *core.Program, r *core.Report, fs []*core.Func) {
@@ -1478,5 +1484,198 @@ func c14R11(p *core.Program, r *core.Report, fs []*core.Func) {
 	}
 	if n == 0 {
 		r.Anchor(rule, "the ast.Inspect callback that collects *ast.ReturnStmt in the result resolver")
+	}
+}
+
+// boundedIndexParam: the k-th parameter of f (an int used as an index) is below a count at every call: the argument is
+// (1) a variable with a dominating `v < <count>` (a loop bound or guard; <count> a Len()/len() expression), possibly
+// through a dominating `u == v` with `u < <count>`, or (2) the caller's own parameter, never assigned, for which the same
+// holds at the caller's calls. It says that the index is checked against *a* count where the pair (function type,
+// index) is formed; that this count is the number of results of that very function type is the reviewed part.
+func boundedIndexParam(p *core.Program, f *core.Func, k int, depth int, seen map[*core.Func]bool) (bool, string) {
+	if depth > 5 || f.Obj() == nil {
+		return false, "call chain too deep"
+	}
+	if seen[f] {
+		return true, ""
+	}
+	seen[f] = true
+	sites := 0
+	isCount := func(info *types.Info, e ast.Expr) bool {
+		c, ok := ast.Unparen(e).(*ast.CallExpr)
+		if !ok {
+			return false
+		}
+		name := core.CalleeName(info, c)
+		return name == "builtin.len" || strings.HasSuffix(name, ").Len") || strings.HasSuffix(name, ").NumFields")
+	}
+	for _, cs := range allCalls(p) {
+		if cs.In.Body == nil || core.CalleeFunc(cs.In.Info(), cs.Call) != f.Obj() {
+			continue
+		}
+		sites++
+		if k >= len(cs.Call.Args) {
+			return false, "call at " + p.Pos(cs.Call.Pos()) + " has no such argument"
+		}
+		in := cs.In
+		info := in.Info()
+		v := core.VarOf(info, cs.Call.Args[k])
+		if v == nil {
+			if c, isC := core.ConstInt(info, cs.Call.Args[k]); isC && c == 0 {
+				// index 0 of a list that is known to have one element is the caller's business: not accepted here
+			}
+			return false, "the index passed at " + p.Pos(cs.Call.Pos()) + " is not a variable"
+		}
+		g := graph(in)
+		below := func(x *types.Var, facts []cfgxFact) bool {
+			// `for x := range <count>`
+			if ds := core.DefsOf(info, in.Root().Body, x); len(ds) == 1 && ds[0].Kind == "range-key" && ds[0].Rhs != nil && isCount(info, ds[0].Rhs) {
+				if t := info.TypeOf(ds[0].Rhs); t != nil {
+					if bt, isBasic := t.Underlying().(*types.Basic); isBasic && bt.Info()&types.IsInteger != 0 {
+						return true
+					}
+				}
+			}
+			for _, fct := range facts {
+				b, ok := ast.Unparen(fct.Cond).(*ast.BinaryExpr)
+				if !ok || fct.Tag != nil || !fct.Val {
+					continue
+				}
+				if b.Op == token.LSS && core.VarOf(info, b.X) == x && isCount(info, b.Y) {
+					return true
+				}
+				if b.Op == token.GTR && core.VarOf(info, b.Y) == x && isCount(info, b.X) {
+					return true
+				}
+			}
+			return false
+		}
+		facts := g.FactsAt(g.PointOf(cs.Call))
+		// facts of the enclosing bodies hold in a literal that is made and run under them only when it is an iterator
+		// body ranged over at once; the resolver's literals are returned, so only the literal's own facts are used
+		ok := below(v, facts)
+		if !ok {
+			for _, fct := range facts {
+				b, isB := ast.Unparen(fct.Cond).(*ast.BinaryExpr)
+				if !isB || b.Op != token.EQL || !fct.Val {
+					continue
+				}
+				var u *types.Var
+				if core.VarOf(info, b.X) == v {
+					u = core.VarOf(info, b.Y)
+				} else if core.VarOf(info, b.Y) == v {
+					u = core.VarOf(info, b.X)
+				}
+				if u != nil && below(u, facts) {
+					ok = true
+				}
+			}
+		}
+		if !ok {
+			// (2) the caller's own parameter, forwarded unchanged
+			root := in.Root()
+			if isParamOf(root, v) && len(core.DefsOf(info, root.Body, v)) == 0 {
+				if pi := paramIndex(root, v); pi >= 0 {
+					if good, why := boundedIndexParam(p, root, pi, depth+1, seen); good {
+						continue
+					} else if why != "" {
+						return false, why
+					}
+				}
+			}
+			return false, "the index " + v.Name() + " passed at " + p.Pos(cs.Call.Pos()) + " is not known to be below a count there"
+		}
+	}
+	if sites == 0 {
+		return false, "no call of " + f.Name
+	}
+	return true, ""
+}
+
+// resultIndexTactic (A5, reviewed): inside the resolver an index that is an int parameter of the function, forwarded
+// from callers that each formed it below a count, is a result index of the function type it travels with.
+func resultIndexTactic(p *core.Program) a5Tactic {
+	return func(bc *boundsCtx, e ast.Expr, base ast.Expr, need needLen) (string, bool) {
+		if need.Idx == nil || need.Off != 0 {
+			return "", false
+		}
+		v := core.VarOf(bc.info, need.Idx)
+		root := bc.f.Root()
+		if v == nil || !isParamOf(root, v) || len(core.DefsOf(bc.info, root.Body, v)) != 0 {
+			return "", false
+		}
+		k := paramIndex(root, v)
+		if k < 0 {
+			return "", false
+		}
+		if ok, why := boundedIndexParam(p, root, k, 0, map[*core.Func]bool{}); !ok {
+			_ = why
+			return "", false
+		}
+		return "reviewed: " + v.Name() + " is a result index of the function type it is passed with - every call chain into " + root.Name + " forms it under a dominating `" + v.Name() + " < <count of results>` (loop bound or `retAt == at` under `retAt < rets.Len()`) [side condition checked at every call site]; the list indexed here has one entry per result of that type", true
+	}
+}
+
+// c14R12: "every alternative is assignable to the declared result type". The resolver follows an argument of a call as
+// an alternative for an `error` result when the parameter that receives it has type error. Matching arguments to
+// parameters has one trap: for a variadic function the trailing arguments are received by the ELEMENT type of the last
+// parameter - unless the call spreads a slice (`f(xs...)`), in which case the one argument IS the slice. Code that
+// consults (*types.Signature).Variadic (or takes Elem() of the last parameter) to type an argument must therefore also
+// consult the call's Ellipsis. Decided as a protocol rule over the resolver: every function that calls Variadic() reads
+// `Ellipsis` of a call expression itself, or each of its callers in the resolver does.
+func c14R12(p *core.Program, r *core.Report, fs []*core.Func) {
+	const rule = "R12"
+	inFs := map[*core.Func]bool{}
+	for _, f := range fs {
+		inFs[f.Root()] = true
+	}
+	readsEllipsis := func(f *core.Func) bool {
+		found := false
+		info := f.Info()
+		ast.Inspect(f.Root().Body, func(n ast.Node) bool {
+			if sel, ok := n.(*ast.SelectorExpr); ok && sel.Sel.Name == "Ellipsis" && core.NamedTypeName(info.TypeOf(sel.X)) == "go/ast.CallExpr" {
+				found = true
+			}
+			return !found
+		})
+		return found
+	}
+	n := 0
+	for _, cs := range callersOf(p, "(*go/types.Signature).Variadic") {
+		root := cs.In.Root()
+		if core.RelPkg(root.Pkg.PkgPath) != "pkg/types" || root.Body == nil {
+			continue
+		}
+		// only code the resolver reaches
+		reached := inFs[root]
+		var callers []*core.Func
+		if root.Obj() != nil {
+			for _, c2 := range allCalls(p) {
+				if c2.In.Body != nil && core.CalleeFunc(c2.In.Info(), c2.Call) == root.Obj() {
+					callers = append(callers, c2.In.Root())
+					if inFs[c2.In.Root()] {
+						reached = true
+					}
+				}
+			}
+		}
+		if !reached {
+			continue
+		}
+		n++
+		ok := readsEllipsis(root)
+		if !ok && len(callers) > 0 {
+			ok = true
+			for _, c := range callers {
+				if !readsEllipsis(c) {
+					ok = false
+				}
+			}
+		}
+		r.Check(ok, rule, root, "arguments are matched to a variadic parameter only with the call's Ellipsis in view", cs.Call.Pos(), "the function (or each caller) reads CallExpr.Ellipsis",
+			"the resolver types an argument by the element type of a variadic parameter without looking at the call's `...`: for `f(xs...)` the slice itself is taken for one of the elements and is reported as an alternative of a result it is not assignable to ([]error for error)")
+	}
+	if n == 0 {
+		r.OK(rule, &core.Func{Pkg: p.Pkg("pkg/types"), Name: "<package>"}, "the resolver does not match arguments to variadic parameters", 0, "no call of (*types.Signature).Variadic in the resolver: nothing to decide (a variadic parameter has a slice type, so a test of the parameter's own type against the result's type never follows it)")
 	}
 }
